@@ -2,14 +2,16 @@
 
 Theorems (coq/props/C14.v over Modules/ModuleSpec/ModLang/ModulesProofs.v): over EVERY event sequence of the
 module machine M (registry, imported flag, frames, handlers, active-module register; loader and compiler
-are oracles): a body runs at most once, every import of a path yields the same object, a registered but
-not yet imported module is a cycle ImportError, load/compile failures are ImportErrors that register
-nothing, the active module is the module of the running closure, built-ins are in every started module.
+are oracles): a body starts at most once per module object and only for an unregistered path or over the
+leftover of a FAILED import (never while the module is loaded or loading), a finished module stays settled,
+every completed import of a path yields the same object, a module whose body is on the frame stack is a cycle
+ImportError, load/compile failures are ImportErrors that register nothing, a failed import is retried from
+scratch, the active module is the module of the running closure, built-ins are in every started module.
 Tie: (a) translator: stage order / literals / load_frame sites of vm.rs + compiler.rs regenerated into
 YVGen.ImportArms and compared by computation; (b) impl == M: harness `mods` (host loader serving a module
 map, LOAD records) on generated module programs, loader-call sequence + output + outcome against
 ModLang.eval_mech (vm_compute); (c) impl == S: the same against ModLang.eval_spec; plus the
-tests/scripts/modules corpus and two fixed probes (import at the frame limit, error classes in modules)."""
+tests/scripts/modules corpus and two fixed probes that must pass (import at the frame limit, re-import after a failed body)."""
 import binascii
 import itertools
 import json
@@ -34,7 +36,7 @@ ASSUMPTIONS = [
     "one interpreter, one run (Vm::reset / a second Vm::execute belong to C15)",
     "the host loader is a function of the path and reports a missing module as an ImportError (harness, tests, default loader do)",
     "fibers are not used by the generated programs (a fiber switch also goes through load_frame; C09 owns fibers)",
-    "programs stay below the frame limit except in the fixed probe (known finding import_at_frame_limit)",
+    "generated programs stay below the frame limit; the import at the frame limit is a fixed probe (and a theorem about M)",
 ]
 
 FINDINGS_PATH = os.path.join(yvlib.VERIF, "notes", "C14-findings.json")
@@ -341,7 +343,8 @@ def coq_preamble(cm):
     tab = "[" + ";".join("[" + ";".join("[" + ";".join(s(m) for m in (row_k or [])) + "]" for row_k in row) + "]" for row in cm) + "]"
     return ("From YVGen Require Import Consts ImportArms.\nOpen Scope string_scope.\n"
             "Definition CM : list (list (list string)) := %s.\n"
-            "Definition RC (w : string) := run_case CM gen_builtin_names gen_core_class_names FRAMES_MAX w.\n" % tab)
+            "Definition RC (w : string) := run_case CM gen_builtin_names gen_core_class_names FRAMES_MAX "
+            "gen_registry_hit_checks_loading gen_builtins_init_guarded w.\n" % tab)
 
 
 def eval_models(progs, cm, tag):
@@ -460,7 +463,7 @@ class Checker:
         self.mism_m = 0
         self.mism_s = 0
         self.flag_b = 0
-        self.flag_r = 0
+        self.reloaded = 0
         self.samples = []
 
     def known(self, cls, what, **kw):
@@ -519,18 +522,14 @@ class Checker:
             ok_m, ok_s, flags, sflags = self.compare_one(p, m, rec)
             if "b" in flags:
                 self.flag_b += 1
+            okpaths = [PATHS[i] for i, mm in enumerate(p) if i > 0 and mm[0] == "ok"]
+            if any(ml_.count(q) > 1 for ml_ in [m["mech"].split("#")[1].split(",")] for q in okpaths):
+                self.reloaded += 1
             cyc, dia, clash = graph_features(p)
             if (cyc or dia) and clash:
                 self.nontrivial.add(w)
             if rec.uaf:
                 ctx.violation("use of a reclaimed object while running a module program", input=w, main=m["main"], modules=m["mods"])
-            if "r" in sflags:
-                # the property text does not say what a second import of a module whose body threw must do (S accepts any
-                # ImportError message); the implementation answers "Circular dependency": open known class
-                self.flag_r += 1
-                self.known("failed_import_poisons_module",
-                           "a module whose body threw stays registered with imported = false: a later import reports a cycle",
-                           input=w, main=m["main"], modules=m["mods"], expected=m["spec"], actual=impl_str(rec))
             if not ok_s:
                 self.mism_s += 1
                 if len([v for v in ctx.violations if v.get("family")]) < 5:
@@ -629,6 +628,20 @@ try { import "q"; } catch e { print2(type(e)); print2(e.context); }
 """
 
 
+REIMPORT_MAIN = """try { import "m"; } catch e { print(type(e)); print(e); }
+import "m";
+print(m.x);
+import "m" as again;
+print(again == m);
+"""
+REIMPORT_MOD = """import "flag";
+flag.n = flag.n + 1;
+print("m start ${flag.n}");
+if flag.n == 1 { throw "boom"; }
+var x = 7;
+"""
+
+
 def check_probes(ch):
     ctx = ch.ctx
     consts = {}
@@ -640,21 +653,21 @@ def check_probes(ch):
     fm = int(consts.get("FRAMES_MAX", 64))
     rec = yvlib.run_harness(ch.binary, [mods_line(FRAME_LIMIT_MAIN % (fm - 2), {"q": 'print("q body"); var z = 1;'})], shards=1)[0]
     out = rec.output
-    want = ["my one", "q body", "my two"]          # the property: the import succeeds or fails cleanly; `print` stays the user's
-    clean_fail = ["my one", "<class IndexError>", "Stack overflow.", "my two", "q body"]
-    today = ["my one", "<class IndexError>", "Stack overflow.", "two", "<class ImportError>",
-             "Circular dependency encountered when importing module 'q'."]
-    if out == today:
-        ch.known("import_at_frame_limit",
-                 "an import that hits the frame limit leaves the module registered but never run (every later import reports a cycle) "
-                 "and re-initialises the built-ins of the handling module (user redefinition of `print` lost)",
-                 input=FRAME_LIMIT_MAIN % (fm - 2), expected=clean_fail, actual=out)
-    elif out in (want, clean_fail):
-        ctx.notes.append("probe import_at_frame_limit: behaves cleanly now (finding fixed?) - Modules.start_import models the old behaviour")
-        ctx.corr_broken.append("import at the frame limit no longer behaves as Modules.start_import (model out of date)")
-    else:
-        ctx.violation("import at the frame limit: unexpected behaviour", input=FRAME_LIMIT_MAIN % (fm - 2), expected=today, actual=out + [str(rec.result)])
-    return 1
+    # the import at the frame limit fails cleanly (IndexError delivered to the handler, the handler's own `print` untouched,
+    # nothing left registered): the later import loads and runs q
+    want = ["my one", "<class IndexError>", "Stack overflow.", "my two", "q body"]
+    loads = [yvlib.unhx(x[0]).decode() for x in rec.tagged("LOAD")]
+    if out != want or rec.result[0] != "ok" or loads != ["q", "q"]:
+        ctx.violation("import at the frame limit: the failed import is not clean (module left registered / built-ins of the handler re-initialised)",
+                      input=FRAME_LIMIT_MAIN % (fm - 2), expected=want + ["LOAD q", "LOAD q"], actual=out + [str(rec.result)] + ["LOAD " + l for l in loads])
+    # re-import after a failed body: the body runs again from the start, in a fresh module object
+    rec2 = yvlib.run_harness(ch.binary, [mods_line(REIMPORT_MAIN, {"m": REIMPORT_MOD, "flag": "var n = 0;"})], shards=1)[0]
+    want2 = ["m start 1", "<class String>", "boom", "m start 2", "7", "true"]
+    loads2 = [yvlib.unhx(x[0]).decode() for x in rec2.tagged("LOAD")]
+    if rec2.output != want2 or rec2.result[0] != "ok" or loads2 != ["m", "flag", "m"]:
+        ctx.violation("re-import after a failed module body", input=REIMPORT_MAIN, expected=want2 + ["LOAD m", "LOAD flag", "LOAD m"],
+                      actual=rec2.output + [str(rec2.result)] + ["LOAD " + l for l in loads2])
+    return 2
 
 
 # ------------------------------------------------------------------------------------------------
@@ -759,7 +772,7 @@ def run(ctx):
         "traces_validated_against_impl": ch.evals,
         "programs": ch.evals, "graph_shape_programs": nshapes, "random_programs": len(rnd), "corpus_scripts": ncorpus,
         "impl_vs_model_mismatches": ch.mism_m, "impl_vs_spec_mismatches": ch.mism_s,
-        "main_only_name_cases": ch.flag_b, "reimport_of_failed_module_cases": ch.flag_r, "harness_cases_retried_after_crash": ch.retried,
+        "main_only_name_cases": ch.flag_b, "reloaded_after_failed_import_cases": ch.reloaded, "harness_cases_retried_after_crash": ch.retried,
         "graph_shapes_exhaustive": (not quick),
         "pending_findings": ch.pending, "known_classes_reproduced": ch.seen_classes,
         "reference_interpreter_compared": ch.ref_evals, "reference_interpreter_disagreements": ch.ref_diff,
